@@ -237,6 +237,8 @@ define(void)
 				p->flags |= PARAMVAR;
 			} else {
 				p->name = tokencheck(&tok, TIDENT, "of macro parameter name or '...'");
+				if (strcmp(p->name, "__VA_ARGS__") == 0)
+					error(&tok.loc, "__VA_ARGS__ cannot be used as a macro parameter name");
 				for (q = params.val; q != p; ++q) {
 					if (strcmp(q->name, p->name) == 0)
 						error(&tok.loc, "duplicate macro parameter name '%s'", p->name);
